@@ -105,6 +105,24 @@ pub fn c01(ctx: &Ctx) -> (CheckMeta, Outcome) {
                     leaf_combos: if thorough { 28 } else { 4 },
                 };
                 out.merge(explore(&run));
+                // deep and narrow: long histories over a 7-letter alphabet (depth 7, thorough 9)
+                {
+                    let narrow = vec![
+                        WOp::WriteBits { v: 1, n: 1 },
+                        WOp::WriteBits { v: u64::MAX, n: (wbits.min(64) - 1) as u8 },
+                        WOp::WriteBits { v: value_patterns(seed)[3], n: 64 },
+                        WOp::WriteBits { v: 0x2B | (u64::MAX << 7), n: 7 },
+                        WOp::Unary(0),
+                        WOp::Unary(wbits as u64),
+                        WOp::Flush,
+                    ];
+                    let d = if thorough { 9 } else { 7 };
+                    let alph = vec![narrow];
+                    let run = WrRun { property: "C01", e, wbits, wrapper: "", depth: d, alphabets: &alph, fixpoint: false, max_states: 6_000_000, real_backends: true, check_counter: false, leaf_combos: 1 };
+                    let o = explore(&run);
+                    out.cov.notes.push(format!("{}: deep-narrow exploration to depth {}: {} states", cfg_id(e, wbits, ""), d, o.cov.states));
+                    out.merge(o);
+                }
                 // fixpoint (whole reachable space) for the 8-bit writer
                 if wbits == 8 {
                     let alph = vec![if thorough { full.clone() } else { bnd.clone() }];
@@ -122,7 +140,7 @@ pub fn c01(ctx: &Ctx) -> (CheckMeta, Outcome) {
     let meta = CheckMeta {
         property: "C01".into(),
         level: "model_checking".into(),
-        rule: "explicit-state BFS over the real BufBitWriter (recording backend; state = Debug string (buffer, space_left) + model pending bits; rebuilt by replaying the shortest history) for E x W in {8,16,32,64,128}; alphabet write_bits(n 0..=64 x 4 value patterns x {clean, bit n set, all bits >= n set}), write_unary(0..=2W+1, 3W-1, 3W, 3W+1, 5W+3), flush; every transition: return value and words delivered during the step vs the bit-vector model; every node's history is replayed on vec/vecref/slice/adapter/adapter-over-a-3-byte-sink/adapter-over-a-lazy-sink (commits on flush only)/rec backends with flush, flush;flush, into_inner, drop and the whole byte image compared (traces_validated_against_impl counts these replays); plus long streams: unary codes of 32 767..70 001 zeros (thorough up to 262 149), alone, between writes and across a flush, and 1 200 fixed-width writes, on every real backend".into(),
+        rule: "explicit-state BFS over the real BufBitWriter (recording backend; state = Debug string (buffer, space_left) + model pending bits; rebuilt by replaying the shortest history) for E x W in {8,16,32,64,128}; alphabet write_bits(n 0..=64 x 4 value patterns x {clean, bit n set, all bits >= n set}), write_unary(0..=2W+1, 3W-1, 3W, 3W+1, 5W+3), flush; every transition: return value and words delivered during the step vs the bit-vector model; every node's history is replayed on vec/vecref/slice/adapter/adapter-over-a-3-byte-sink/adapter-over-a-lazy-sink (commits on flush only)/rec backends with flush, flush;flush, into_inner, drop and the whole byte image compared (traces_validated_against_impl counts these replays); plus a deep-and-narrow exploration (7-letter alphabet: 1 bit, W-1 ones, 64 bits, 7 dirty bits, unary 0, unary W, flush; depth 7, thorough 9); plus long streams: unary codes of 32 767..70 001 zeros (thorough up to 262 149), alone, between writes and across a flush, and 1 200 fixed-width writes, on every real backend".into(),
         assumptions: vec!["reference model = canonical layout (harness/src/model.rs)".into(), "by parametricity in the WordWrite backend the writer's future depends on (buffer, space_left) only".into()],
     };
     (meta, out)
